@@ -155,11 +155,25 @@ func (c *cluster) add(evs [][]byte) ([]*balloon.Snapshot, error) {
 }
 
 // quiesce waits until every live node has applied what the leader has applied.
+// persisted: the node's durable state has caught up with its in-memory version counter (the counter advances when an
+// insertion is computed, the fsm state when it has been written: between the two the node is not quiescent)
+func persisted(n *consensus.RaftNode) bool {
+	bv := n.VBalloonVersion()
+	_, ver := n.VState()
+	return bv == 0 || ver+1 == bv
+}
+
 func (c *cluster) quiesce() bool {
 	want := uint64(len(c.acked))
 	stable := 0
-	for t := 0; t < 400; t++ {
+	// up to 90 s: a state transfer whose first stream broke is retried by raft after a back-off, and the machine may be loaded
+	for t := 0; t < 1800; t++ {
 		ok := true
+		for _, n := range c.nodes {
+			if n != nil && !persisted(n) {
+				ok = false
+			}
+		}
 		if c.indet {
 			// all live nodes at the same version >= the acknowledged one, unchanged for a second
 			var vs []uint64
@@ -357,7 +371,7 @@ func clusterCmd(out *cq.Out, seed uint64, tier string) {
 						c.checkReplicas(out, rng, "C06", desc)
 						hist = append(hist, "check")
 					} else {
-						out.Violate("C06:no-quiescence", "after a follower restart on a large log the replicas did not converge within 20 s: "+c.versions(), desc)
+						out.Violate("C06:no-quiescence", "after a follower restart on a large log the replicas did not converge within 90 s: "+c.versions(), desc)
 					}
 				}
 			}
@@ -378,7 +392,7 @@ func clusterCmd(out *cq.Out, seed uint64, tier string) {
 						c.checkReplicas(out, rng, "C06", desc)
 						hist = append(hist, "check")
 					} else {
-						out.Violate("C06:no-quiescence", "after a follower restart on a one-event log the replicas did not converge within 20 s: "+c.versions(), desc)
+						out.Violate("C06:no-quiescence", "after a follower restart on a one-event log the replicas did not converge within 90 s: "+c.versions(), desc)
 					}
 				}
 			}
@@ -444,7 +458,7 @@ func clusterCmd(out *cq.Out, seed uint64, tier string) {
 					c.checkReplicas(out, rng, "C06", desc)
 					hist = append(hist, "check")
 				} else {
-					out.Violate("C06:no-quiescence", "the live replicas did not converge to the leader's version within 20 s: "+c.versions(), desc)
+					out.Violate("C06:no-quiescence", "the live replicas did not converge to the leader's version within 90 s: "+c.versions(), desc)
 				}
 			}
 		}
@@ -455,7 +469,7 @@ func clusterCmd(out *cq.Out, seed uint64, tier string) {
 		if c.quiesce() {
 			c.checkReplicas(out, rng, "C06", desc)
 		} else {
-			out.Violate("C06:no-quiescence", "the replicas did not converge to the leader's version within 20 s at the end of the scenario: "+c.versions(), desc)
+			out.Violate("C06:no-quiescence", "the replicas did not converge to the leader's version within 90 s at the end of the scenario: "+c.versions(), desc)
 		}
 		out.Count("cluster_scenarios", 1)
 		out.Count("cluster_events", len(c.acked))
